@@ -13,8 +13,11 @@ type Server struct {
 }
 
 func NewServer(s *openapi3.Server) (zero Server, _ error) {
+	if s == nil {
+		return zero, fmt.Errorf("server is empty")
+	}
 	variables, err := NewMap[ServerVariable, *openapi3.ServerVariable](s.Variables, func(sv *openapi3.ServerVariable) (ServerVariable, error) {
-		return NewServerVariable(sv), nil
+		return NewServerVariable(sv)
 	})
 	if err != nil {
 		return zero, fmt.Errorf("new variables: %w", err)
@@ -44,14 +47,25 @@ type ServerVariable struct {
 	Description string
 }
 
-func NewServerVariable(sv *openapi3.ServerVariable) ServerVariable {
+func NewServerVariable(sv *openapi3.ServerVariable) (zero ServerVariable, _ error) {
+	if sv == nil {
+		return zero, fmt.Errorf("server variable is empty")
+	}
 	enums := make([]string, 0, len(sv.Enum))
 	for _, e := range sv.Enum {
-		enums = append(enums, e.(string))
+		s, ok := e.(string)
+		if !ok {
+			return zero, fmt.Errorf("enum value %v: only strings are supported", e)
+		}
+		enums = append(enums, s)
+	}
+	def, ok := sv.Default.(string)
+	if !ok {
+		return zero, fmt.Errorf("default value %v: only strings are supported", sv.Default)
 	}
 	return ServerVariable{
 		Enum:        enums,
-		Default:     sv.Default.(string),
+		Default:     def,
 		Description: sv.Description,
-	}
+	}, nil
 }
